@@ -6,6 +6,7 @@ use poulpy_bin_fhe::bdd_arithmetic::tests::test_suite::TestContext;
 use poulpy_bin_fhe::bdd_arithmetic::*;
 use poulpy_bin_fhe::blind_rotation::CGGI;
 use poulpy_core::EncryptionLayout;
+use poulpy_core::api::*;
 use poulpy_core::layouts::*;
 use poulpy_cpu_avx::FFT64Avx;
 use poulpy_cpu_ref::FFT64Ref;
@@ -210,6 +211,109 @@ macro_rules! fhe_backend {
                     match r {
                         Ok(v) => outs.push(json!({"out": bits(v), "panic": ""})),
                         Err(p) => outs.push(json!({"out": [], "panic": p})),
+                    }
+                }
+                // oblivious data movement under an encrypted index: blind selection over a sparse map, blind retrieval
+                // (butterfly of conditional swaps, forward and reverse), the stateful retriever, a single cswap, blind rotation
+                "blind" => {
+                    let op = c["op"].as_str().unwrap();
+                    let gu = |k: &str, d: u64| c.get(k).and_then(|v| v.as_u64()).unwrap_or(d) as usize;
+                    let (rsh, mask, lsh) = (gu("rsh", 0), gu("mask", 0), gu("lsh", 0));
+                    let tp = TorusPrecision(glwe_infos.base2k.as_u32());
+                    let enc_item = |v: i64, pos: usize, salt: u64| {
+                        let mut pt: GLWEPlaintext<Vec<u8>> = GLWEPlaintext::alloc_from_infos(&glwe_infos);
+                        pt.encode_coeff_i64(v, tp, pos);
+                        let mut ct: GLWE<Vec<u8>> = GLWE::alloc_from_infos(&glwe_infos);
+                        let mut scratch: ScratchOwned<BE> = ScratchOwned::alloc(1 << 22);
+                        module.glwe_encrypt_sk(&mut ct, &pt, skp, &glwe_enc, &mut Source::new(mk(seed ^ salt ^ 0x55)), &mut Source::new(mk(seed ^ salt ^ 0x66)), scratch.borrow());
+                        ct
+                    };
+                    // decoded coefficients as a sparse list [[index, value], ..]
+                    let dec_ct = |ct: &GLWE<Vec<u8>>| -> Value {
+                        let mut pt: GLWEPlaintext<Vec<u8>> = GLWEPlaintext::alloc_from_infos(&glwe_infos);
+                        let mut scratch: ScratchOwned<BE> = ScratchOwned::alloc(1 << 22);
+                        module.glwe_decrypt(ct, &mut pt, skp, scratch.borrow());
+                        let n = module.n();
+                        json!((0..n).filter_map(|i| { let v = pt.decode_coeff_i64(tp, i); if v != 0 { Some(json!([i, v])) } else { None } }).collect::<Vec<_>>())
+                    };
+                    let sel = enc_prep(a, 1);
+                    let r = guarded(|| {
+                        let mut scratch: ScratchOwned<BE> = ScratchOwned::alloc(1 << 23);
+                        match op {
+                            "select" => {
+                                let keys: Vec<usize> = c["keys"].as_array().unwrap().iter().map(|v| v.as_u64().unwrap() as usize).collect();
+                                let mut cts: Vec<GLWE<Vec<u8>>> = keys.iter().map(|&k| enc_item(k as i64 + 1, 0, 100 + k as u64)).collect();
+                                let mut map: std::collections::HashMap<usize, &mut GLWE<Vec<u8>>> = std::collections::HashMap::new();
+                                for (ct, &k) in cts.iter_mut().zip(keys.iter()) {
+                                    map.insert(k, ct);
+                                }
+                                let mut res: GLWE<Vec<u8>> = enc_item(99, 1, 7);      // a re-used destination
+                                GLWEBlindSelection::<u32, BE>::glwe_blind_selection(module, &mut res, map, &sel, rsh, mask, scratch.borrow());
+                                vec![dec_ct(&res)]
+                            }
+                            "retrieval" => {
+                                let n = gu("n", 1);
+                                let mut v: Vec<GLWE<Vec<u8>>> = (0..n).map(|i| enc_item(i as i64 + 1, 0, 200 + i as u64)).collect();
+                                module.glwe_blind_retrieval_statefull(&mut v, &sel, rsh, mask, scratch.borrow());
+                                let fwd: Vec<Value> = v.iter().map(&dec_ct).collect();
+                                module.glwe_blind_retrieval_statefull_rev(&mut v, &sel, rsh, mask, scratch.borrow());
+                                let rev: Vec<Value> = v.iter().map(&dec_ct).collect();
+                                vec![json!(fwd), json!(rev)]
+                            }
+                            "retriever" => {
+                                // rounds: [adds, adds, ..]; every round ends with a flush; item ids 10*round + k + 1
+                                let size = gu("size", 2);
+                                let rounds: Vec<usize> = c["rounds"].as_array().unwrap().iter().map(|v| v.as_u64().unwrap() as usize).collect();
+                                let mut rt = GLWEBlindRetriever::alloc(&glwe_infos, size);
+                                let mut outs: Vec<Value> = vec![];
+                                for (ri, &adds) in rounds.iter().enumerate() {
+                                    for k in 0..adds {
+                                        let it = enc_item((10 * ri + k + 1) as i64, 0, 300 + (ri * 16 + k) as u64);
+                                        rt.add(module, &it, &sel, rsh, scratch.borrow());
+                                    }
+                                    let mut res: GLWE<Vec<u8>> = enc_item(99, 1, 8);
+                                    rt.flush(module, &mut res, &sel, rsh, scratch.borrow());
+                                    outs.push(dec_ct(&res));
+                                }
+                                outs
+                            }
+                            "retrieve" => {
+                                let size = gu("size", 2);
+                                let n = gu("n", 1);
+                                let data: Vec<GLWE<Vec<u8>>> = (0..n).map(|i| enc_item(i as i64 + 1, 0, 400 + i as u64)).collect();
+                                let mut rt = GLWEBlindRetriever::alloc(&glwe_infos, size);
+                                let mut res: GLWE<Vec<u8>> = enc_item(99, 1, 8);
+                                // exactly the declared scratch
+                                let mut scratch: ScratchOwned<BE> = ScratchOwned::alloc(GLWEBlindRetriever::retrieve_tmp_bytes(module, &res, &ggsw_infos));
+                                rt.retrieve(module, &mut res, &data, &sel, rsh, scratch.borrow());
+                                vec![dec_ct(&res)]
+                            }
+                            "cswap" => {
+                                let mut x = enc_item(1, 0, 500);
+                                let mut y = enc_item(2, 0, 501);
+                                module.cswap(&mut x, &mut y, &sel.get_bit(rsh), scratch.borrow());
+                                vec![dec_ct(&x), dec_ct(&y)]
+                            }
+                            "rotate" | "rotate_assign" => {
+                                let pos = gu("pos", 0);
+                                let neg = c.get("neg").and_then(|v| v.as_bool()).unwrap_or(false);
+                                let x = enc_item(gu("val", 1) as i64, pos, 600);
+                                if op == "rotate" {
+                                    let mut res: GLWE<Vec<u8>> = enc_item(99, 1, 9);
+                                    module.glwe_blind_rotation(&mut res, &x, &sel, !neg, rsh, mask, lsh, scratch.borrow());
+                                    vec![dec_ct(&res)]
+                                } else {
+                                    let mut y = x.clone();
+                                    module.glwe_blind_rotation_assign(&mut y, &sel, !neg, rsh, mask, lsh, scratch.borrow());
+                                    vec![dec_ct(&y)]
+                                }
+                            }
+                            other => panic!("harness: unknown blind op {other}"),
+                        }
+                    });
+                    match r {
+                        Ok(v) => outs.push(json!({"res": v, "panic": ""})),
+                        Err(p) => outs.push(json!({"res": [], "panic": p})),
                     }
                 }
                 // several OS threads share the module, the prepared key and the read-only operands; each has its own scratch
